@@ -233,6 +233,11 @@ def driver(prop, tier, seed, devs):
                                 [("id", "if"), ("id", "header"), ("tag", ":is"), ("lb", ""), ("str", v), ("comma", ""), ("str", "x"), ("rb", ""), tv, ("lc", ""), ("rc", "")],
                                 [("id", "require"), ("str", "vacation"), ("semi", ""), ("id", "vacation"), ("tag", ":subject"), tv, ("tag", ":addresses"), ("lb", ""), ("str", v), ("rb", ""), tv, ("semi", "")],
                                 [("id", "if"), ("id", "not"), ("id", "exists"), ("lb", ""), ("str", v), ("comma", ""), ("str", v), ("rb", ""), ("lc", ""), ("id", "if"), ("id", "true"), ("lc", ""), ("id", "redirect"), tv, ("semi", ""), ("rc", ""), ("rc", "")],
+                                # lists with an item repeated, also as the last one; a test list with a test repeated
+                                [("id", "if"), ("id", "anyof"), ("lp", ""), ("id", "header"), ("tag", ":is"), ("lb", ""), ("str", v), ("comma", ""), ("str", "x"), ("comma", ""), ("str", v), ("rb", ""),
+                                 ("lb", ""), ("str", "k"), ("comma", ""), ("str", "k"), ("rb", ""), ("comma", ""), ("id", "true"), ("comma", ""),
+                                 ("id", "header"), ("tag", ":is"), ("lb", ""), ("str", v), ("comma", ""), ("str", "x"), ("comma", ""), ("str", v), ("rb", ""),
+                                 ("lb", ""), ("str", "k"), ("comma", ""), ("str", "k"), ("rb", ""), ("rp", ""), ("lc", ""), ("id", "redirect"), tv, ("semi", ""), ("rc", "")],
                                 # a string of this form as the parameter of every tag that takes one
                                 [("id", "require"), ("lb", ""), ("str", "body"), ("comma", ""), ("str", "date"), ("comma", ""), ("str", "fileinto"), ("comma", ""), ("str", "imap4flags"), ("rb", ""), ("semi", ""),
                                  ("id", "if"), ("id", "anyof"), ("lp", ""), ("id", "body"), ("tag", ":contains"), ("tag", ":content"), tv, ("lb", ""), ("str", "k1"), ("comma", ""), ("str", v), ("rb", ""), ("comma", ""),
